@@ -6,14 +6,15 @@ From YP Require Import Outcome PyStr PyVal Doc PathParser Searches Eval SpecC15 
 Import ListNotations.
 
 (* SearchKeywordTerms.parameters splits the raw parameter text; unbalanced
-   quotes are a ValueError there.  The path parser never produces such a text
-   (it refuses the unbalanced path first), which is a property of the parser,
-   not of the evaluator: it is part of the fragment. *)
+   quotes are a ValueError there, and the parser does let such a text through
+   ("[max(\')]": the escaped parse stores a lone quote).  Since the repair of
+   finding F31 KeywordSearches.search_matches turns that ValueError into a
+   YAMLPathException, so the fragment no longer asks anything of the parameter
+   text: [kw_params_ok] only serves the Examples of Properties/C15.v. *)
 Definition kw_params_ok (raw : string) : bool :=
   match keyword_parameters raw with Ok _ => true | _ => false end.
 
-Definition seg_ok_kw (es us : seg) : bool :=
-  seg_ok es us && match snd es with AKeyword _ _ ps => kw_params_ok ps | _ => true end.
+Definition seg_ok_kw (es us : seg) : bool := seg_ok es us.
 
 Fixpoint frag_segs_kw (in_frag : ppath -> bool) (l : list pseg) : bool :=
   match l with
